@@ -969,11 +969,11 @@ Definition ex4 : state :=
            [(1, 2, []); (1, 3, []); (2, 4, [])] None ex_feats
            [(1, [1]); (2, [2; 4]); (3, [3])] [(1, [1; 2; 3; 4])] 3 1 5.
 
-Lemma succ_cases st (P : list Z -> Prop) :
-  P [] -> (forall u, In u (keys (succs (g st))) -> P (successors st u)) -> forall u, P (successors st u).
+Lemma succ_cases st (P : Z -> list Z -> Prop) :
+  (forall u, P u []) -> (forall u, In u (keys (succs (g st))) -> P u (successors st u)) -> forall u, P u (successors st u).
 Proof.
   intros H0 H u. destruct (in_dec Z.eq_dec u (keys (succs (g st)))) as [Hi|Hi]; [now apply H|].
-  apply lookup_None_keys in Hi. unfold successors, adj, getd. rewrite Hi. exact H0.
+  apply lookup_None_keys in Hi. unfold successors, adj, getd. rewrite Hi. apply H0.
 Qed.
 
 Lemma attrs_cases st (P : attrs -> Prop) :
@@ -986,22 +986,11 @@ Qed.
 Lemma ex4_nodes n : is_node ex4 n <-> n = 1 \/ n = 2 \/ n = 3 \/ n = 4.
 Proof. unfold is_node. cbn. intuition. Qed.
 
-Lemma ex4_edges u v : edge ex4 u v <-> (u, v) = (1, 2) \/ (u, v) = (1, 3) \/ (u, v) = (2, 4).
-Proof.
-  split.
-  - revert u. apply (succ_cases ex4 (fun l => _ -> _)).
-  Abort.
-
 Lemma ex4_edges u v : edge ex4 u v -> (u, v) = (1, 2) \/ (u, v) = (1, 3) \/ (u, v) = (2, 4).
 Proof.
-  rewrite edge_successors. revert u. 
-  assert (H : forall u, forall l, l = successors ex4 u -> In v l -> (u, v) = (1, 2) \/ (u, v) = (1, 3) \/ (u, v) = (2, 4)).
-  { intros u. pattern (successors ex4 u). revert u. 
-    assert (forall u, In u (keys (succs (g ex4))) -> forall l, l = successors ex4 u -> In v l -> (u, v) = (1, 2) \/ (u, v) = (1, 3) \/ (u, v) = (2, 4)) as Hk.
-    { intros u Hu l ->. cbn in Hu. destruct Hu as [<-|[<-|[<-|[<-|[]]]]]; vm_compute; intuition congruence. }
-    intros u. destruct (in_dec Z.eq_dec u (keys (succs (g ex4)))) as [Hi|Hi]; [exact (Hk u Hi)|].
-    apply lookup_None_keys in Hi. unfold successors, adj, getd. rewrite Hi. intros l -> []. }
-  intros u. now apply (H u _ eq_refl).
+  rewrite edge_successors. revert u.
+  apply (succ_cases ex4 (fun u l => In v l -> (u, v) = (1, 2) \/ (u, v) = (1, 3) \/ (u, v) = (2, 4))); [intros u []|].
+  intros u Hu. cbn in Hu. destruct Hu as [<-|[<-|[<-|[<-|[]]]]]; vm_compute; intuition congruence.
 Qed.
 
 Lemma ex4_W_dict : W_dict ex4.
@@ -1010,13 +999,13 @@ Proof.
   - cbn. repeat constructor; cbn; intuition discriminate.
   - vm_compute. repeat constructor; cbn; intuition discriminate.
   - intros n. rewrite haskey_keys. unfold is_node. change (keys (succs (g ex4))) with (node_ids ex4). tauto.
-  - apply succ_cases; [constructor|]. intros u Hu. cbn in Hu.
+  - apply (succ_cases ex4 (fun _ l => NoDup l)); [constructor|]. intros u Hu. cbn in Hu.
     destruct Hu as [<-|[<-|[<-|[<-|[]]]]]; vm_compute; repeat constructor; cbn; intuition discriminate.
   - intros u v He. apply ex4_edges in He. rewrite !ex4_nodes. destruct He as [E|[E|E]]; injection E as -> ->; auto.
   - intros n Hn. apply ex4_nodes in Hn. destruct Hn as [->|[->|[->| ->]]]; vm_compute; eauto.
   - intros n Hn. apply ex4_nodes in Hn. destruct Hn as [->|[->|[->| ->]]]; vm_compute; eauto.
   - intros n Hn. apply ex4_nodes in Hn. destruct Hn as [->|[->|[->| ->]]]; vm_compute; eauto.
-  - apply attrs_cases; [constructor|]. intros n Hn. apply ex4_nodes in Hn.
+  - apply (attrs_cases ex4 (fun a => NoDup (keys a))); [constructor|]. intros n Hn. apply ex4_nodes in Hn.
     destruct Hn as [->|[->|[->| ->]]]; vm_compute; repeat constructor; cbn; intuition discriminate.
 Qed.
 
@@ -1025,7 +1014,7 @@ Proof.
   constructor.
   - intros u u' v E1 E2. apply ex4_edges in E1. apply ex4_edges in E2.
     destruct E1 as [E1|[E1|E1]]; destruct E2 as [E2|[E2|E2]]; congruence.
-  - apply succ_cases; [cbn; lia|]. intros u Hu. cbn in Hu.
+  - apply (succ_cases ex4 (fun _ l => (length l <= 2)%nat)); [cbn; lia|]. intros u Hu. cbn in Hu.
     destruct Hu as [<-|[<-|[<-|[<-|[]]]]]; vm_compute; lia.
   - intros u v He. apply ex4_edges in He. destruct He as [E|[E|E]]; injection E as -> ->; vm_compute; reflexivity.
 Qed.
